@@ -148,6 +148,27 @@ func c16Gen(g *core.Gen) {
 			}
 		}
 	}
+	// files whose length is an exact multiple of the slice size (their last slice has no padding): bytes inserted in
+	// front of the last slice AND bytes appended behind it - the last slice survives away from home with data after it;
+	// also the whole content of such a file found inside another file, followed by more bytes
+	for _, cfg := range []scen.P2Config{{Sizes: []int{12, 8}, Slice: 4, Blocks: 5, Class: "uniq"}, {Sizes: []int{16, 24}, Slice: 8, Blocks: 5, Class: "uniq"}} {
+		for f, n := range cfg.Sizes {
+			for at := 0; at <= n; at++ {
+				for k := 1; k <= 3; k++ {
+					for _, m := range []int{1, cfg.Slice - 1, cfg.Slice, cfg.Slice + 1} {
+						emit(&p2Case{Cfg: cfg, Dmg: []scen.Dmg{{Op: "ins", F: f, At: at, N: k}, {Op: "app", F: f, N: m}}, G: 1, AutoPrune: true, Extra: []string{"c16"}})
+					}
+				}
+			}
+			for g2 := range cfg.Sizes {
+				if g2 != f {
+					for _, m := range []int{1, cfg.Slice, cfg.Slice + 1} {
+						emit(&p2Case{Cfg: cfg, Dmg: []scen.Dmg{{Op: "copy", F: f, G: g2}, {Op: "app", F: g2, N: m}, {Op: "del", F: f}}, G: 1, AutoPrune: true, Extra: []string{"c16"}})
+					}
+				}
+			}
+		}
+	}
 	// slices carrying the boundary values of the 32-bit checksum field (0, 1, 0xffffffff, 0x80000000, ...), displaced by
 	// every insert / cut of 1..slice+1 bytes at every offset of the first two slices and at the file's end
 	for _, cfg := range []scen.P2Config{{Sizes: []int{59, 20}, Slice: 8, Blocks: 4, Class: "crcfield"}, {Sizes: []int{26, 9}, Slice: 4, Blocks: 3, Class: "crcfield"}} {
